@@ -112,6 +112,7 @@ static const char * strip_mnemonics(const char * h, int k) {
     return p;
 }
 
+static int g_trailing_empty;
 static void gen_message(vh_rng_t * rng, vh_buf_t * msg) {
     int u; char full[HLEN];
     NU = 1 + (int) vh_below(rng, MAXU);
@@ -150,10 +151,15 @@ static void gen_message(vh_rng_t * rng, vh_buf_t * msg) {
             }
         }
         if (u) vh_buf_addc(msg, ';');
+        /* empty message units (488.2 7.3.3 lets a unit be bypassed): in front of the first unit, and in the middle where the next header is
+         * written absolute - there the statement leaves no doubt about the path whatever an empty unit does to it */
+        if ((u == 0 || x->written[0] == ':' || x->written[0] == '*') && vh_chance(rng, 1, 10)) { if (vh_chance(rng, 1, 3)) vh_buf_addc(msg, ' '); vh_buf_addc(msg, ';'); vh_count(u ? "units.empty_unit_in_the_middle" : "units.empty_unit_in_front", 1); }
         if (vh_chance(rng, 1, 6)) vh_buf_addc(msg, ' ');
         vh_buf_adds(msg, x->written);
         if (!(x->tag && Tnull[x->tag - 1]) && vh_chance(rng, 1, 5)) { x->has_param = 1; vh_buf_adds(msg, vh_chance(rng, 1, 2) ? " 12" : " MIN"); }
     }
+    /* ... and behind the last one: "A:B;" is a complete message, the next message starts with an empty path like any other */
+    if (vh_chance(rng, 1, 6)) { vh_buf_addc(msg, ';'); if (vh_chance(rng, 1, 4)) vh_buf_addc(msg, ' '); g_trailing_empty = 1; vh_count("units.empty_unit_at_the_end", 1); } else g_trailing_empty = 0;
     vh_buf_adds(msg, vh_chance(rng, 1, 4) ? "\r\n" : "\n");
 }
 
@@ -232,7 +238,8 @@ static void p0_run(uint64_t idx, vh_rng_t * rng) {
         else { line_unit[nlines++] = u; vh_buf_adds(&expect_log, "E -113\n"); }
     }
     g_inv = 0; g_iscmd_self_false = g_iscmd_other_true = 0;
-    if (via_flush) { size_t n = msg.len; while (n && (msg.p[n - 1] == '\n' || msg.p[n - 1] == '\r')) n--; vh_input(v, msg.p, n); vh_input(v, NULL, 0); vh_count("messages.ended_by_zero_length_input_call", 1); }
+    if (via_flush) { size_t n = msg.len; while (n && (msg.p[n - 1] == '\n' || msg.p[n - 1] == '\r')) n--; vh_input(v, msg.p, n); vh_input(v, NULL, 0); vh_count("messages.ended_by_zero_length_input_call", 1);
+        if (g_trailing_empty && mi + 1 < nmsg) vh_count("messages.ended_by_separator_and_zero_length_call_followed_by_another_message", 1); }
     else vh_input(v, msg.p, msg.len);
     if (mi > 0) vh_count("messages.on_a_context_that_served_earlier_messages", 1);
     vh_eval(1);
@@ -319,6 +326,6 @@ int main(int argc, char ** argv) {
     vh_scribble_chunk_in_callbacks(1); vh_decoy_enable(7); vh_require("decoy.messages_run_on_a_second_context"); vh_require("unit.defined.relative.after-defined-compound"); vh_require("unit.defined.relative.after-undefined-compound");
     vh_require("unit.defined.relative.after-common"); vh_require("unit.undefined.relative.after-defined-compound");
     vh_require("unit.defined.absolute.after-defined-compound"); vh_require("unit.overlap_first_match_matters");
-    vh_require("handler.iscmd_checks"); vh_require("messages.ended_by_zero_length_input_call"); vh_require("tables.installed_on_a_live_context"); vh_require("messages.on_a_context_that_served_earlier_messages"); vh_require("unit.first_match_without_handler_shadows_later_handler"); vh_require("tables.from_shipped_patterns");
+    vh_require("handler.iscmd_checks"); vh_require("messages.ended_by_zero_length_input_call"); vh_require("tables.installed_on_a_live_context"); vh_require("messages.on_a_context_that_served_earlier_messages"); vh_require("unit.first_match_without_handler_shadows_later_handler"); vh_require("tables.from_shipped_patterns"); vh_require("units.empty_unit_at_the_end"); vh_require("units.empty_unit_in_front"); vh_require("units.empty_unit_in_the_middle"); vh_require("messages.ended_by_separator_and_zero_length_call_followed_by_another_message");
     return vh_main(argc, argv, "C02", phases, 1);
 }
